@@ -76,8 +76,10 @@ func ExpandUnspecifiedIPs[A hasIP2[A]](xs []A) (ys []A) {
 				// 	continue
 				default:
 					y := x.MapIP(func(netip.Addr) netip.Addr {
+						// net.IP holds IPv4 addresses in 16 bytes: without Unmap the host's
+						// IPv4 addresses would come out as IPv4-mapped IPv6 (::ffff:a.b.c.d)
 						a, _ := netip.AddrFromSlice(ipNet.IP)
-						return a
+						return a.Unmap()
 					})
 					ys = append(ys, y)
 				}
